@@ -82,6 +82,31 @@ func main() {
 		os.Exit(cmdFunc(o, args[0], args[1:]))
 	case "list":
 		os.Exit(cmdList(o))
+	case "rename-locals":
+		if o.repo == "/repo" {
+			fmt.Println("rename-locals rewrites files: give it a scratch copy with -repo")
+			os.Exit(2)
+		}
+		w, err := loadAll(o, nil)
+		if err != nil {
+			fmt.Println(err)
+			os.Exit(2)
+		}
+		n, err := w.renameLocalsInPlace("Q")
+		fmt.Println("renamed identifiers:", n, err)
+		os.Exit(0)
+	case "locals":
+		// rewrite contracts/locals.json from the current tree (the names the contracts were written against)
+		w, err := loadAll(o, nil)
+		if err != nil {
+			fmt.Println(err)
+			os.Exit(2)
+		}
+		if err := w.writeLocalSnapshot(filepath.Join(o.verif, "contracts", "locals.json")); err != nil {
+			fmt.Println(err)
+			os.Exit(2)
+		}
+		os.Exit(0)
 	case "mods":
 		w, err := loadAll(o, nil)
 		if err != nil {
@@ -151,6 +176,7 @@ func loadAll(o options, patterns []string) (*World, error) {
 	if err := w.loadSpecs(filepath.Join(o.verif, "contracts", "deps")); err != nil {
 		return w, err
 	}
+	w.loadLocalSnapshot(filepath.Join(o.verif, "contracts", "locals.json"))
 	if err := w.bind(); err != nil {
 		return w, err
 	}
